@@ -9,9 +9,11 @@ package vh
 // the same position.
 
 import (
+	"errors"
 	"fmt"
 	"html"
 	"strings"
+	"sync"
 	"testing"
 	"unicode/utf8"
 
@@ -25,7 +27,41 @@ type C07Case struct {
 	Pos   int    `json:"pos"`   // syntactic position of the filter
 }
 
-var c07Shapes = []string{"string", "bytes", "stringer", "strslice", "strmap", "struct", "ptr", "named"}
+var c07Shapes = []string{"string", "bytes", "stringer", "strslice", "strmap", "struct", "ptr", "named", "intstringer", "boolstringer", "floatstringer", "error", "ptrstring", "iface-slice"}
+
+// numeric and boolean named types whose String method returns arbitrary text (an enum printing
+// "<unknown>"): the text lives in a table indexed by the value
+var c07TextTab = struct {
+	sync.Mutex
+	m map[int]string
+	n int
+}{m: map[int]string{}}
+
+func c07Text(i int) string {
+	c07TextTab.Lock()
+	defer c07TextTab.Unlock()
+	return c07TextTab.m[i]
+}
+
+func c07Reg(s string) int {
+	c07TextTab.Lock()
+	defer c07TextTab.Unlock()
+	c07TextTab.n++
+	if c07TextTab.n > 4096 {
+		c07TextTab.m = map[int]string{}
+		c07TextTab.n = 1
+	}
+	c07TextTab.m[c07TextTab.n] = s
+	return c07TextTab.n
+}
+
+type c07IntStr int
+type c07BoolStr bool
+type c07FloatStr float64
+
+func (v c07IntStr) String() string   { return c07Text(int(v)) }
+func (v c07FloatStr) String() string { return c07Text(int(v)) }
+func (v c07BoolStr) String() string  { return c07Text(-1) }
 
 type c07Stringer struct{ s string }
 
@@ -54,12 +90,27 @@ func c07Value(c C07Case) interface{} {
 		return &c07Struct{s, 7}
 	case "named":
 		return c07Named(s)
+	case "intstringer":
+		return c07IntStr(c07Reg(s))
+	case "floatstringer":
+		return c07FloatStr(c07Reg(s))
+	case "boolstringer":
+		c07TextTab.Lock()
+		c07TextTab.m[-1] = s
+		c07TextTab.Unlock()
+		return c07BoolStr(true)
+	case "error":
+		return errors.New(s)
+	case "ptrstring":
+		return &s
+	case "iface-slice":
+		return []interface{}{s, 1, c07Stringer{s}}
 	}
 	return s
 }
 
 // positions: template set + name of the filter used is a parameter
-const c07NPos = 14
+const c07NPos = 18
 
 func c07Templates(pos int, f string) map[string]string {
 	switch pos {
@@ -92,6 +143,16 @@ func c07Templates(pos int, f string) map[string]string {
 		return map[string]string{"main": "{{ [v|" + f + ", '<&>'|" + f + "]|first }}"}
 	case 13:
 		return map[string]string{"main": "{% set a = v|" + f + " %}{% for q in ['<1>', '<22>'] %}{% set z = q|" + f + " %}{% endfor %}{{ a }}"}
+	// 14..17: the filter applied to its own output (c07Twice): the second application sees the
+	// already-escaped text as its input
+	case 14:
+		return map[string]string{"main": "{{ v|" + f + "|" + f + " }}"}
+	case 15:
+		return map[string]string{"main": "{{ v|" + f + "|" + map[string]string{"e": "escape", "escape": "e"}[f] + " }}"}
+	case 16:
+		return map[string]string{"main": "{% apply " + f + " %}{{ v|" + f + " }}{% endapply %}"}
+	case 17:
+		return map[string]string{"main": "{% set a = v|" + f + " %}{{ a|" + f + " }}"}
 	}
 	panic("pos")
 }
@@ -132,10 +193,21 @@ func checkC07(c C07Case) error {
 	ctx := map[string]interface{}{"v": v}
 	// pre-image: the text the engine prints for the value without the filter
 	pre := string(c.Val)
-	if c.Shape != "string" && c.Shape != "bytes" && c.Shape != "stringer" && c.Shape != "named" {
+	if c.Shape != "string" && c.Shape != "bytes" && c.Shape != "stringer" && c.Shape != "named" && c.Shape != "ptrstring" {
 		r := render1("{{ v }}", ctx)
 		if r.Failed() {
 			return fmt.Errorf("printing the value itself failed: %v", r)
+		}
+		pre = r.Out
+	}
+	if c.Pos >= 14 {
+		// escaped twice: the input of the second application is the engine's single escape
+		r := render1("{{ v|e }}", ctx)
+		if r.Failed() {
+			return fmt.Errorf("single escape failed: %v", r)
+		}
+		if err := c07CheckOut(pre, r.Out, "single escape"); err != nil {
+			return err
 		}
 		pre = r.Out
 	}
@@ -276,7 +348,7 @@ func isASCII(s string) bool {
 	return true
 }
 
-const c07Rule = "random strings (all of Unicode, raw bytes incl. invalid UTF-8, pieces of HTML and of already-escaped text) as 8 Go value shapes in 11 filter positions; non-trivial = the text contains one of < > & \" ' or a byte >= 0x80; distinct by (value, shape, position)"
+const c07Rule = "random strings (all of Unicode, raw bytes incl. invalid UTF-8, pieces of HTML and of already-escaped text) as 14 Go value shapes (string, []byte, Stringer struct, named int / float / bool types with a String method, error, pointer to string, slices, maps, structs) in 18 filter positions (4 of them apply the filter to its own output); non-trivial = the text contains one of < > & \" ' or a byte >= 0x80; distinct by (value, shape, position)"
 
 func TestC07Escape(t *testing.T) {
 	r := NewRec(t, "C07", c07Rule)
@@ -367,3 +439,65 @@ func init() {
 	reg("C07.fallback", checkC07Fallback)
 	reg("C07.macrotext", checkC07MacroText)
 }
+
+// ---- several goroutines escaping on one engine ---------------------------------------------------
+
+type C07ConcCase struct {
+	Vals []BStr `json:"vals"`
+	Reps int    `json:"reps"`
+}
+
+func checkC07Conc(c C07ConcCase) error {
+	src := map[string]string{"main": "{{ v|e }}|{{ v|escape }}|{% apply e %}{{ v }}{% endapply %}"}
+	want := make([]string, len(c.Vals))
+	for i, v := range c.Vals {
+		r := render(newEngine(src), "main", map[string]interface{}{"v": string(v)})
+		if r.Failed() {
+			return fmt.Errorf("serial render failed: %v", r)
+		}
+		want[i] = r.Out
+	}
+	e := newEngine(src)
+	var wg sync.WaitGroup
+	errs := make(chan error, len(c.Vals))
+	start := make(chan struct{})
+	for i := range c.Vals {
+		wg.Add(1)
+		go func(i int) {
+			defer wg.Done()
+			<-start
+			for k := 0; k < c.Reps; k++ {
+				r := render(e, "main", map[string]interface{}{"v": string(c.Vals[i])})
+				if r.Failed() || r.Out != want[i] {
+					errs <- fmt.Errorf("goroutine %d, render %d of value %s: %v under concurrency, %s when run alone", i, k+1, q(string(c.Vals[i])), r, q(want[i]))
+					return
+				}
+			}
+		}(i)
+	}
+	close(start)
+	wg.Wait()
+	close(errs)
+	for err := range errs {
+		return err
+	}
+	return nil
+}
+
+func TestC07Concurrent(t *testing.T) {
+	r := NewRec(t, "C07", "2-8 goroutines escape different strings (all containing special characters) through e, escape and an apply block on one shared engine, 30 (thorough 200) renders each, built with -race; oracle: every output equals the one obtained alone on a fresh engine; non-trivial = always (every value has a special character)")
+	defer r.Flush()
+	rapid.Check(t, func(rt *rapid.T) {
+		n := rapid.IntRange(2, 8).Draw(rt, "goroutines")
+		c := C07ConcCase{Reps: scale(30, 200)}
+		for i := 0; i < n; i++ {
+			c.Vals = append(c.Vals, BStr(genC07String(rt)+rapid.SampledFrom([]string{"<", "&", "\"'", "<&>"}).Draw(rt, "special")+strings.Repeat("<x>", rapid.IntRange(0, 40).Draw(rt, "long"))))
+		}
+		r.Case(fmt.Sprint(c.Vals), true, c, fmt.Sprintf("goroutines:%d", n))
+		if err := checkC07Conc(c); err != nil {
+			r.Fail(rt, "C07.concurrent", c, err)
+		}
+	})
+}
+
+func init() { reg("C07.concurrent", checkC07Conc) }
